@@ -226,6 +226,8 @@ def build_app(ctx: Ctx, start: str, step: int, n_steps: int, n_targets: int, sen
                          template="main_init.json", decision="MunkresDecision", seed=ctx.seed + 1,
                          truth_only=truth_only)
     cfg["engines"][0]["sensors"] = copy.deepcopy(sensors)
+    # the global switch would force background_observations on for every sensor; leave it to the sensors
+    cfg.setdefault("observation", {})["background"] = False
     for t, props in zip(cfg["engines"][0]["targets"], target_props or ()):
         t["platform"]["visual_cross_section"] = props["area"]
         t["platform"]["reflectivity"] = props["refl"]
@@ -441,8 +443,8 @@ def sweep(run: Runner, rng, per_sensor: int, max_bg: int):
                 est = np.concatenate([site.s[:3] + L["rng"] * d, est[3:]])
             bgs = [app.target_agents[t] for t in rng.sample([t for t in tids if t != tid],
                                                           min(rng.randint(0, max_bg), len(tids) - 1))]
-            prior = None
-            if mode == 2:            # every call from the state the scenario left the sensor in
+            prior = None             # mode 0: chained calls, the state the previous call left
+            if mode in (1, 2):       # from the state the scenario left the sensor in
                 prior = base
             elif mode == 3:          # a random prior pointing, tasked one step ago or just now
                 prior = (rotate_from([0, 0, 1.0], rng.uniform(0, 1.5), rng),
